@@ -141,6 +141,15 @@ def check():
                 z.f = getattr(z, x.f.__name__)
             if not (z == x):
                 return n, "re-construction from its own attribute values is not equal for instance #%d: %r vs %r" % (i, x, z)
+        else:
+            # a self-referential instance: the copy is total and refers to itself, not to the original
+            try:
+                y = copy.deepcopy(x)
+            except BaseException as e:      # noqa
+                return n, "deepcopy raised %s for the self-referential instance #%d" % (type(e).__name__, i)
+            r = y.ref[0] if isinstance(y.ref, list) else y.ref
+            if r is not y:
+                return n, "the copy of the self-referential instance #%d refers to %s instead of itself" % (i, "the original" if r is x else "a third object")
         try:
             s = repr(x)
         except BaseException as e:      # noqa
